@@ -41,7 +41,8 @@ OPT = {"o1": "O1", "o2": "O2"}
 GRAPHS = {   # cfg -> (mode, N chunks, tier)
     "g_seq_cache": ("cache", 3, "quick"),
     "g_conc_same": ("cache", 3, "quick"),
-    "g_conc_diff": ("cache", 3, "quick"),
+    "g_conc_diff_q": ("cache", 2, "quickonly"),
+    "g_conc_diff": ("cache", 3, "thorough"),
     "g_seq_codegen": ("codegen", 2, "directed"),      # tour only in thorough, directed paths always
     "gi_seq_cache": ("cache", 3, "thorough"),
     "gi_conc_diff": ("cache", 3, "thorough"),
@@ -499,9 +500,12 @@ def _paths_for(g, inits, thorough, seed, tour, n_walks, crash_classes=True):
 def run(ctx):
     thorough = ctx.tier == "thorough"
     t0 = time.time()
-    checks = [("intended_cache", 2), ("intended_codegen", 2), ("catchonly", 2)]
-    expect = {"asbuilt_noraise": "NoRaise", "asbuilt_wrong": "ReturnsCorrect", "asbuilt_live": "temporal", "atomiconly": "NoRaise"}
-    graphs = [gname for gname, (_m, _n, tier) in GRAPHS.items() if thorough or tier in ("quick", "directed")]
+    checks = [("intended_cache", 2), ("intended_codegen", 2)] + ([("catchonly", 2)] if thorough else [])
+    expect = {"asbuilt_noraise": "NoRaise", "asbuilt_wrong": "ReturnsCorrect", "asbuilt_live": "temporal"}
+    if thorough:
+        expect["atomiconly"] = "NoRaise"
+    graphs = [gname for gname, (_m, _n, tier) in GRAPHS.items()
+              if (thorough and tier != "quickonly") or (not thorough and tier in ("quick", "quickonly", "directed"))]
     jobs = checks + [(c, 1) for c in expect] + [(gname, 1) for gname in graphs]
     with ThreadPoolExecutor(4) as ex:
         results = {c: (r, flag) for c, r, flag in ex.map(_tlc_job, jobs)}
